@@ -6,19 +6,33 @@
 (* Each stage kind is given by InitLoc / OnHave / OnEof / EarlyDone,       *)
 (* written from the element's run method:                                  *)
 (*   map     adapters.Run._call_run, Variable, UpdateContext, MakeFilename *)
+(*           Print, Context; callables given as functions, classes, bound  *)
+(*           methods, functools.partial                                    *)
+(*   nodata  an element without data (lena.meta.SetContext): LenaSequence  *)
+(*           keeps it out of _data_seq, the flow does not see it           *)
 (*   filter  lena/flow/filter.py Filter.run                                *)
 (*   slice   lena/flow/iterators.py Slice.run (itertools.islice)           *)
 (*   lagk, lastk   Slice._run_negative_islice branches A and C1            *)
+(*   nslice  Slice._run_negative_islice, all six sign patterns with step   *)
 (*   count   lena/flow/elements.py Count.run   runif  RunIf.run            *)
 (*   reverse, end  Reverse.run, End.run                                    *)
-(*   sum, last     fill/compute elements through adapters.Run._fc_run      *)
-(*   split   lena/core/split.py Split.run with map/filter/Sum branches     *)
+(*   sum, last, lastattr  fill/compute elements through Run._fc_run        *)
+(*   split   lena/core/split.py Split.run: no branches (identity), per     *)
+(*           value branches, Sequence branches run per block (seqbr,       *)
+(*           seqsum, nested Split), fill/compute branches (sum, fcsum);    *)
+(*           bufsize a number or None (the whole flow is one block)        *)
 (***************************************************************************)
 EXTENDS Integers, Sequences, FiniteSets, TLC
 
 Inf == 1000
 None == -1000
 NoneD == -999      \* the data value None (harness callables and predicates treat it as this number)
+\* data values that look like "nothing": False, "", {}, [], () (the harness maps them to these numbers)
+FalseD == -2010
+EStrD == -2020
+EDictD == -2030
+EListD == -2040
+ETupD == -2050
 
 (***************************************************************************)
 (* Values: data is an integer, context is abstracted to a set of marks,    *)
@@ -26,10 +40,17 @@ NoneD == -999      \* the data value None (harness callables and predicates trea
 (***************************************************************************)
 Val(d, c, h) == [d |-> d, c |-> c, h |-> h]
 
+\* a flow of values an implementation may confuse with "nothing", bare values and pairs mixed
+SpecialFlow == << Val(0, {}, FALSE), Val(NoneD, {}, FALSE), Val(EDictD, {}, FALSE), Val(NoneD, {}, TRUE),
+                  Val(FalseD, {}, FALSE), Val(EStrD, {}, TRUE), Val(EListD, {}, FALSE), Val(0, {}, TRUE),
+                  Val(ETupD, {}, FALSE), Val(1, {"a"}, TRUE),
+                  Val(2, {"a"}, TRUE) >>     \* the last one is a namedtuple pair with an OrderedDict context
+
 ApplyMap(f, v) ==
-  CASE f = "inc" -> [v EXCEPT !.d = @ + 1]
+  CASE f \in {"inc", "cls", "meth", "part"} -> [v EXCEPT !.d = @ + 1]  \* one function, given as a def / a class /
+                                                                      \* a bound method / a functools.partial
     [] f = "dbl" -> [v EXCEPT !.d = @ * 2]
-    [] f = "id" -> v                                                  \* Print, Context
+    [] f \in {"id", "print"} -> v                                     \* Context, Print
     [] f = "nul" -> IF v.h \/ v.d % 2 = 0 THEN v ELSE [v EXCEPT !.d = NoneD]   \* user callable returning None
                                                   \* for odd bare data: None is a value like any other
     [] f = "tag" -> [v EXCEPT !.c = @ \cup {"t"}, !.h = TRUE]          \* user callable adding a key
@@ -49,29 +70,45 @@ Pred(p, v) == CASE p = "even" -> v.d % 2 = 0
 (* Stage descriptors.                                                      *)
 (***************************************************************************)
 Map(f) == [t |-> "map", f |-> f]
+NoData == [t |-> "nodata"]                \* SetContext("s", 1): takes no part in the flow
 Filter(p) == [t |-> "filter", p |-> p]
 Slice(a, b, s) == [t |-> "slice", a |-> a, b |-> b, s |-> s]   \* non-negative, itertools.islice
 LagK(k) == [t |-> "lagk", k |-> k]        \* Slice(-k): all but the last k
 LastK(k) == [t |-> "lastk", k |-> k]      \* Slice(-k, None): the last k
+NSlice(a, b, s) == [t |-> "nslice", a |-> a, b |-> b, s |-> s]   \* Slice(a, b, s), a or b negative, s >= 1
 Count == [t |-> "count"]
-RunIf(p, f) == [t |-> "runif", p |-> p, f |-> f]    \* f = "drop": the inner sequence yields nothing
+RunIf(p, f) == [t |-> "runif", p |-> p, f |-> f]    \* f = "drop": the inner sequence yields nothing;
+                                                    \* f = "bad": the inner argument is not an element
 Reverse == [t |-> "reverse"]
 End == [t |-> "end"]
 Sum == [t |-> "sum"]                      \* fill/compute accumulator run through adapters.Run
 Last == [t |-> "last"]                    \* user fill/compute element: yields the last filled value
-SplitSt(brs, bs) == [t |-> "split", brs |-> brs, bs |-> bs]   \* branches: Map(f) | Filter(p) | Sum | SeqSum(f)
+LastAttr == [t |-> "lastattr"]            \* the same with a data attribute named run (run = "2023A")
+\* branches: Map(f) | Filter(p) | Sum | SeqSum(f) | FcSum(f) | SeqBr(body) | Bad(k); bs: a number or None
+SplitSt(brs, bs) == [t |-> "split", brs |-> brs, bs |-> bs]
 SeqSum(f) == [t |-> "seqsum", f |-> f]      \* the Sequence object (f, Sum()) as a branch
+FcSum(f) == [t |-> "fcsum", f |-> f]        \* the tuple (f, Sum()) as a branch: a fill/compute sequence
+SeqBr(body) == [t |-> "seqbr", body |-> body]   \* Sequence(*body) of reusable stages as a branch (run per block)
 Bad(k) == [t |-> "bad", k |-> k]          \* not convertible to an element
 
-Streaming(st) == st.t \in {"map", "filter", "slice", "lagk", "count", "runif", "split"}
+Streaming(st) == st.t \in {"map", "nodata", "filter", "slice", "lagk", "nslice", "count", "runif", "split"}
+
+\* which branch of Slice._run_negative_islice applies
+NsBranch(st) == IF st.a = None THEN "A"                  \* only a negative stop
+                ELSE IF st.a >= 0 THEN "B"               \* start >= 0, stop < 0
+                ELSE IF st.b = None THEN "C1"            \* start < 0, no stop
+                ELSE IF st.b <= st.a THEN "C2"           \* stop <= start < 0: nothing
+                ELSE IF st.b < 0 THEN "C3"               \* start < stop < 0
+                ELSE "C4"                                \* start < 0 <= stop
 
 InitLoc(st) ==
   CASE st.t = "slice" -> [cnt |-> 0, nxt |-> st.a]
     [] st.t \in {"lagk", "lastk"} -> [dq |-> <<>>, got |-> 0, put |-> 0]
+    [] st.t = "nslice" -> [dq |-> <<>>, got |-> 0, ny |-> 0, dead |-> FALSE]
     [] st.t = "count" -> [has |-> FALSE, prev |-> Val(0, {}, FALSE), n |-> 0]
     [] st.t = "reverse" -> [buf |-> <<>>]
     [] st.t = "sum" -> [tot |-> 0, c |-> {}]
-    [] st.t = "last" -> [has |-> FALSE, prev |-> Val(0, {}, FALSE)]
+    [] st.t \in {"last", "lastattr"} -> [has |-> FALSE, prev |-> Val(0, {}, FALSE)]
     [] st.t = "split" -> [buf |-> <<>>, tot |-> [j \in 1..Len(st.brs) |-> 0],
                           c |-> [j \in 1..Len(st.brs) |-> {}], any |-> FALSE]
     [] OTHER -> [z |-> 0]
@@ -83,7 +120,16 @@ RECURSIVE Rev(_)
 Rev(xs) == IF xs = <<>> THEN <<>> ELSE Append(Rev(Tail(xs)), Head(xs))
 SumVal(tot, c) == Val(tot, c, c # {})
 
+\* ---- negative-index Slice ----
+PushMax(d, v, maxlen) == IF Len(d) = maxlen THEN Append(Tail(d), v) ELSE Append(d, v)
+\* the step filter islice(gen, None, None, s) applied to values that are the ny0-th, ... inner results
+RECURSIVE StepVals(_, _, _)
+StepVals(vs, ny0, s) == IF vs = <<>> THEN <<>>
+                        ELSE (IF ny0 % s = 0 THEN <<Head(vs)>> ELSE <<>>) \o StepVals(Tail(vs), ny0 + 1, s)
+FirstN(xs, m) == SubSeq(xs, 1, IF m < 0 THEN 0 ELSE IF m < Len(xs) THEN m ELSE Len(xs))
+
 \* ---- Split as a stage: per block, branch by branch ----
+RECURSIVE SemR(_, _)        \* = Sem, defined below: a Sequence branch runs its body over the block
 RECURSIVE BranchBlock(_, _)
 BranchBlock(br, blk) ==      \* results a per-value branch yields for a block
   IF blk = <<>> THEN <<>>
@@ -95,6 +141,7 @@ SumD(blk) == IF blk = <<>> THEN 0 ELSE Head(blk).d + SumD(Tail(blk))
 \* a branch given as a Sequence OBJECT (f, Sum()): a "sequence" branch, run once per block; Sum is
 \* not reset between runs, so it yields the running total after every block.  However the elements
 \* of that branch are grouped into nested Sequences, it stays a per-block branch (regrouping).
+\* The TUPLE (f, Sum()) is a fill/compute sequence: filled value by value, computed once at the end.
 Mapped(f, blk) == [i \in 1..Len(blk) |-> ApplyMap(f, blk[i])]
 SeqSumTot(br, loc, j, blk) == loc.tot[j] + SumD(Mapped(br.f, blk))
 SeqSumCtx(br, loc, j, blk) == IF blk # <<>> THEN ApplyMap(br.f, blk[Len(blk)]).c ELSE loc.c[j]
@@ -104,24 +151,30 @@ BlockOut(brs, loc, j, blk, eof) ==
   ELSE (IF brs[j].t = "seqsum"
         THEN (IF blk # <<>> \/ (eof /\ ~loc.any)       \* every block; an empty flow: invoked once
               THEN <<SumVal(SeqSumTot(brs[j], loc, j, blk), SeqSumCtx(brs[j], loc, j, blk))>> ELSE <<>>)
+        ELSE IF brs[j].t = "seqbr"
+        THEN (IF blk # <<>> \/ (eof /\ ~loc.any) THEN SemR(brs[j].body, blk) ELSE <<>>)
         ELSE BranchBlock(brs[j], blk)) \o BlockOut(brs, loc, j + 1, blk, eof)
 SplitBlock(st, loc, blk, eof) ==    \* new loc and emitted values after one block
   [loc |-> [buf |-> <<>>,
             tot |-> [j \in 1..Len(st.brs) |-> IF st.brs[j].t = "sum" THEN loc.tot[j] + SumD(blk)
-                                              ELSE IF st.brs[j].t = "seqsum" THEN SeqSumTot(st.brs[j], loc, j, blk)
+                                              ELSE IF st.brs[j].t \in {"seqsum", "fcsum"}
+                                                   THEN SeqSumTot(st.brs[j], loc, j, blk)
                                               ELSE 0],
             c |-> [j \in 1..Len(st.brs) |-> IF st.brs[j].t = "sum" /\ blk # <<>> THEN blk[Len(blk)].c
-                                            ELSE IF st.brs[j].t = "seqsum" THEN SeqSumCtx(st.brs[j], loc, j, blk)
+                                            ELSE IF st.brs[j].t \in {"seqsum", "fcsum"}
+                                                 THEN SeqSumCtx(st.brs[j], loc, j, blk)
                                             ELSE loc.c[j]],
             any |-> loc.any \/ blk # <<>>],
    em |-> BlockOut(st.brs, loc, 1, blk, eof)]
 RECURSIVE SplitFinal(_, _, _)
 SplitFinal(st, loc, j) == IF j > Len(st.brs) THEN <<>>
-   ELSE (IF st.brs[j].t = "sum" THEN <<SumVal(loc.tot[j], loc.c[j])>> ELSE <<>>) \o SplitFinal(st, loc, j + 1)
+   ELSE (IF st.brs[j].t \in {"sum", "fcsum"} THEN <<SumVal(loc.tot[j], loc.c[j])>> ELSE <<>>)
+        \o SplitFinal(st, loc, j + 1)
 
 \* [loc, em]: new local state and emitted values when the stage receives v
 OnHave(st, loc, v) ==
-  CASE st.t = "map" -> [loc |-> loc, em |-> <<ApplyMap(st.f, v)>>]
+  CASE st.t \in {"map"} -> [loc |-> loc, em |-> <<ApplyMap(st.f, v)>>]
+    [] st.t = "nodata" -> [loc |-> loc, em |-> <<v>>]
     [] st.t = "filter" -> [loc |-> loc, em |-> IF Pred(st.p, v) THEN <<v>> ELSE <<>>]
     [] st.t = "slice" ->
          IF loc.cnt < loc.nxt THEN [loc |-> [loc EXCEPT !.cnt = @ + 1], em |-> <<>>]      \* skipped
@@ -134,6 +187,22 @@ OnHave(st, loc, v) ==
                               em |-> <<Head(loc.dq)>>]
     [] st.t = "lastk" -> [loc |-> [dq |-> IF Len(loc.dq) = st.k THEN Append(Tail(loc.dq), v) ELSE Append(loc.dq, v),
                                    got |-> loc.got + 1, put |-> 0], em |-> <<>>]
+    [] st.t = "nslice" ->
+         LET br == NsBranch(st) IN
+         IF br \in {"A", "B"} THEN
+            LET k == -st.b
+                skip == IF br = "B" THEN st.a ELSE 0 IN
+            IF loc.got < skip THEN [loc |-> [loc EXCEPT !.got = @ + 1], em |-> <<>>]
+            ELSE IF Len(loc.dq) < k THEN [loc |-> [loc EXCEPT !.dq = Append(@, v), !.got = @ + 1], em |-> <<>>]
+            ELSE [loc |-> [loc EXCEPT !.dq = Append(Tail(@), v), !.got = @ + 1, !.ny = @ + 1],
+                  em |-> IF loc.ny % st.s = 0 THEN <<Head(loc.dq)>> ELSE <<>>]
+         ELSE IF br \in {"C1", "C3"} THEN
+            [loc |-> [loc EXCEPT !.dq = PushMax(@, v, -st.a), !.got = @ + 1], em |-> <<>>]
+         ELSE IF br = "C4" THEN
+            \* the value is pulled, then the code sees that stop is too small for anything to be yielded
+            IF loc.got >= st.b - st.a THEN [loc |-> [loc EXCEPT !.dead = TRUE, !.dq = <<>>], em |-> <<>>]
+            ELSE [loc |-> [loc EXCEPT !.dq = PushMax(@, v, -st.a), !.got = @ + 1], em |-> <<>>]
+         ELSE [loc |-> loc, em |-> <<>>]         \* C2 never asks for a value
     [] st.t = "count" -> [loc |-> [has |-> TRUE, prev |-> v, n |-> loc.n + 1],
                           em |-> IF loc.has THEN <<loc.prev>> ELSE <<>>]
     [] st.t = "runif" -> [loc |-> loc, em |-> IF Pred(st.p, v)
@@ -142,22 +211,33 @@ OnHave(st, loc, v) ==
     [] st.t = "reverse" -> [loc |-> [buf |-> Append(loc.buf, v)], em |-> <<>>]
     [] st.t = "end" -> [loc |-> loc, em |-> <<>>]
     [] st.t = "sum" -> [loc |-> [tot |-> loc.tot + v.d, c |-> v.c], em |-> <<>>]
-    [] st.t = "last" -> [loc |-> [has |-> TRUE, prev |-> v], em |-> <<>>]
-    [] st.t = "split" -> LET l2 == [loc EXCEPT !.buf = Append(@, v)] IN
-                         IF Len(l2.buf) = st.bs THEN SplitBlock(st, l2, l2.buf, FALSE) ELSE [loc |-> l2, em |-> <<>>]
+    [] st.t \in {"last", "lastattr"} -> [loc |-> [has |-> TRUE, prev |-> v], em |-> <<>>]
+    [] st.t = "split" ->
+         IF st.brs = <<>> THEN [loc |-> loc, em |-> <<v>>]     \* Split([]) acts as an empty Sequence
+         ELSE LET l2 == [loc EXCEPT !.buf = Append(@, v)] IN
+              IF st.bs # None /\ Len(l2.buf) = st.bs THEN SplitBlock(st, l2, l2.buf, FALSE)
+              ELSE [loc |-> l2, em |-> <<>>]
 
 \* values emitted when the stage finds its input exhausted
 OnEof(st, loc) ==
   CASE st.t = "count" -> IF loc.has THEN <<[loc.prev EXCEPT !.c = (@ \ CountMarks) \cup {CountMark(loc.n)}, !.h = TRUE]>> ELSE <<>>
     [] st.t = "lastk" -> loc.dq
+    [] st.t = "nslice" ->
+         LET br == NsBranch(st) IN
+         IF br = "C1" THEN StepVals(loc.dq, 0, st.s)
+         ELSE IF br = "C3" THEN StepVals(FirstN(loc.dq, Len(loc.dq) + st.b), 0, st.s)
+         ELSE IF br = "C4" THEN StepVals(FirstN(loc.dq, st.b - (loc.got - Len(loc.dq))), 0, st.s)
+         ELSE <<>>
     [] st.t = "reverse" -> Rev(loc.buf)
     [] st.t = "sum" -> <<SumVal(loc.tot, loc.c)>>
-    [] st.t = "last" -> IF loc.has THEN <<loc.prev>> ELSE <<>>
-    [] st.t = "split" -> LET r == SplitBlock(st, loc, loc.buf, TRUE) IN r.em \o SplitFinal(st, r.loc, 1)
+    [] st.t \in {"last", "lastattr"} -> IF loc.has THEN <<loc.prev>> ELSE <<>>
+    [] st.t = "split" -> IF st.brs = <<>> THEN <<>>
+                         ELSE LET r == SplitBlock(st, loc, loc.buf, TRUE) IN r.em \o SplitFinal(st, r.loc, 1)
     [] OTHER -> <<>>
 
 \* the stage stops without asking its input again
-EarlyDone(st, loc) == st.t = "slice" /\ st.b # None /\ loc.cnt >= loc.nxt /\ loc.cnt >= st.b
+EarlyDone(st, loc) == \/ st.t = "slice" /\ st.b # None /\ loc.cnt >= loc.nxt /\ loc.cnt >= st.b
+                      \/ st.t = "nslice" /\ (NsBranch(st) = "C2" \/ loc.dead)
 
 (***************************************************************************)
 (* Declarative semantics.                                                  *)
@@ -176,6 +256,7 @@ PipeRun(prog, xs, eof) ==
   IF prog = <<>> THEN [out |-> xs, fin |-> eof]
   ELSE LET r == StageRun(Head(prog), InitLoc(Head(prog)), xs, eof) IN PipeRun(Tail(prog), r.out, r.fin)
 Sem(prog, xs) == PipeRun(prog, xs, TRUE).out
+SemR(prog, xs) == PipeRun(prog, xs, TRUE).out
 
 Take(xs, m) == SubSeq(xs, 1, IF m < Len(xs) THEN m ELSE Len(xs))
 \* least number of input values after which the pipeline has produced j results
@@ -186,4 +267,30 @@ MinNeedFrom(prog, xs, j, m) ==
   ELSE MinNeedFrom(prog, xs, j, m + 1)
 MinNeed(prog, xs, j) == MinNeedFrom(prog, xs, j, 0)
 
+(***************************************************************************)
+(* Classification of stages.                                               *)
+(***************************************************************************)
+\* the argument (or an argument nested in it) cannot be converted to an element
+RECURSIVE HasBadSt(_)
+HasBadSt(st) == \/ st.t = "bad"
+                \/ st.t = "runif" /\ st.f = "bad"
+                \/ st.t = "split" /\ \E j \in 1..Len(st.brs) : HasBadSt(st.brs[j])
+                \/ st.t = "seqbr" /\ \E j \in 1..Len(st.body) : HasBadSt(st.body[j])
+\* the element keeps nothing between runs: the same object may be run again, also while an earlier run is suspended
+RECURSIVE Reusable(_)
+Reusable(st) == \/ st.t \in {"map", "nodata", "filter", "slice", "lagk", "lastk", "nslice", "runif", "reverse", "end"}
+                \/ st.t = "split" /\ \A j \in 1..Len(st.brs) : Reusable(st.brs[j])
+                \/ st.t = "seqbr" /\ \A j \in 1..Len(st.body) : Reusable(st.body[j])
+\* input values a streaming stage documents to keep (liveness bound of C02): Split one block (while it reads the
+\* next block the previous one is still bound to a local name), Count and RunIf one value, a negative Slice |index|
+AbsNeg(i) == IF i # None /\ i < 0 THEN -i ELSE 0
+Retention(st) == CASE st.t = "split" -> IF st.brs = <<>> THEN 0 ELSE IF st.bs = None THEN Inf ELSE 2 * st.bs
+                   [] st.t \in {"lagk", "lastk"} -> st.k
+                   [] st.t = "nslice" -> IF AbsNeg(st.a) > AbsNeg(st.b) THEN AbsNeg(st.a) ELSE AbsNeg(st.b)
+                   [] st.t \in {"count", "runif"} -> 1
+                   [] OTHER -> 0
+RECURSIVE RetentionSum(_)
+RetentionSum(prog) == IF prog = <<>> THEN 0 ELSE Retention(Head(prog)) + RetentionSum(Tail(prog))
+\* each generator frame may in addition hold the value it is working on and the one it just handed on
+AliveBound(prog) == RetentionSum(prog) + 2 * Len(prog) + 2
 =============================================================================
